@@ -247,12 +247,17 @@ def compare(beh, info, res, tol=2e-5, log_on=True):
         return [("INFRA", "no shot result")]
     if halted:
         if shot["status"] != "runtime":
-            out.append(("C06", "spec: statement %d operates on a measured qubit and must stop with a runtime error; "
-                               "implementation status=%s" % (halted, shot["status"])))
+            st0 = beh["prog"][halted - 1]
+            same0 = st0["s"] == "cx" and beh["vars"][st0["v"] - 1]["idx"][st0["e"] - 1] == beh["vars"][st0["v2"] - 1]["idx"][st0["e2"] - 1]
+            out.append(("C05" if same0 else "C06", "spec: statement %d %s and must stop with a runtime error; implementation status=%s"
+                        % (halted, "applies cx to one qubit twice" if same0 else "operates on a measured qubit", shot["status"])))
         else:
             st = beh["prog"][halted - 1]
-            if "measured" not in shot.get("what", ""):
-                out.append(("C06", "runtime error is not the measured-qubit refusal: %s" % shot.get("what")))
+            same = st["s"] == "cx" and beh["vars"][st["v"] - 1]["idx"][st["e"] - 1] == beh["vars"][st["v2"] - 1]["idx"][st["e2"] - 1]
+            if same and "distinct" in shot.get("what", ""):
+                pass
+            elif "measured" not in shot.get("what", ""):
+                out.append(("C05" if same else "C06", "runtime error is not the expected refusal: %s" % shot.get("what")))
             if shot.get("line", 0) <= 0 or shot.get("col", 0) <= 0:
                 out.append(("C06", "runtime error is not located: %s" % shot.get("what")))
             elif st.get("path", "direct") == "direct" and st["s"] != "measarr" and shot["line"] != info["stmt_line"][halted]:
